@@ -134,6 +134,8 @@ class World(EventDispatcher):
 
         for component in replaced:
             if hasattr(component, '__events__'):
+                self.remove_handler(component)
+
                 if ON_REMOVE_EVENT_NAME in component.__events__:
                     if self._dispatch_enabled:
                         getattr(
@@ -144,8 +146,6 @@ class World(EventDispatcher):
                         self.dispatch(ON_SINGLE_DISPATCH_EVENT_NAME,
                                       ON_REMOVE_EVENT_NAME,
                                       component, entity_id, self)
-
-                self.remove_handler(component)
 
         return entity_id
 
@@ -357,6 +357,10 @@ class World(EventDispatcher):
 
             # Event handling
             if hasattr(component, '__events__'):
+                # Stop listening first: the component is detached, and
+                # its on_remove may attach it again somewhere else
+                self.remove_handler(component)
+
                 # If dispatching is enabled, call on_remove directly
                 # to gain performance. Otherwise an event is dispatched
                 if ON_REMOVE_EVENT_NAME in component.__events__:
@@ -368,8 +372,6 @@ class World(EventDispatcher):
                         self.dispatch(ON_SINGLE_DISPATCH_EVENT_NAME,
                                       ON_REMOVE_EVENT_NAME,
                                       component, entity, self)
-
-                self.remove_handler(component)
 
         del self._entities[entity]
         self._dead_entities.discard(entity)
@@ -412,6 +414,10 @@ class World(EventDispatcher):
                     if not hasattr(removed, '__events__'):
                         return removed
 
+                    # Stop listening first: the component is detached,
+                    # and its on_remove may attach it again somewhere else
+                    self.remove_handler(removed)
+
                     # Code replication
                     # If dispatching is enabled, call on_remove directly
                     # to gain performance. Otherwise an event is dispatched
@@ -426,7 +432,6 @@ class World(EventDispatcher):
                                       ON_REMOVE_EVENT_NAME,
                                       removed, entity, self)
 
-                    self.remove_handler(removed)
                     return removed
 
             fringe += subtype.__subclasses__()
